@@ -98,9 +98,9 @@ def render_ovf(body, rng, style):
     fm = body["fmap"]
     fm = fm if isinstance(fm, dict) else {i + 1: v for i, v in enumerate(fm)}
     fid = {"plain": {1: "file1", 2: "file2"}, "alphabet": {1: "ovf", 2: "fvo:o"}, "words": {1: "file", 2: "1"}, "words2": {1: "elif", 2: "file-file"},
-           "case": {1: "File_2", 2: "file_2"}}[ids]   # identifiers are case sensitive
+           "case": {1: "File_2", 2: "file_2"}, "punct": {1: "file#1", 2: "file?v=2;x"}}[ids]   # identifiers are case sensitive; '#', '?' and ';' are ordinary characters in them
     did = {"plain": {1: "vmdisk1", 2: "vmdisk2"}, "alphabet": {1: "vof", 2: "ffo"}, "words": {1: "disk1", 2: "1"}, "words2": {1: "system", 2: "kdisk-id"},
-           "case": {1: "vmDisk1", 2: "vmdisk1"}}[ids]
+           "case": {1: "vmDisk1", 2: "vmdisk1"}, "punct": {1: "vmdisk#2", 2: "vmdisk"}}[ids]
     href = {1: "disk one.vmdk", 2: "second-disk ✓.vmdk"}
     po, pr = style.get("po", "ovf"), style.get("pr", "rasd")
     # attributes of other vocabularies that happen to have the same local names (xml:id, a vendor's fileRef / href / diskId): an
@@ -208,7 +208,7 @@ OVF_STYLES = [{"ids": "plain"}, {"ids": "alphabet", "po": "o", "pr": "r"}, {"ids
               {"ids": "words"}, {"ids": "words2", "po": "disk", "pr": "file"}, {"ids": "case"},
               # the same document spelled differently; a DiskSection that is empty / absent where every item names a file directly
               {"ids": "plain", "xml": "squote"}, {"ids": "words", "xml": "comments"}, {"ids": "plain", "xml": "default-ns", "disksection": "empty"},
-              {"ids": "case", "xml": "tagspace", "disksection": "absent"}, {"ids": "plain", "foreign_attrs": "before"}, {"ids": "words", "foreign_attrs": "after", "xml": "squote"}]
+              {"ids": "case", "xml": "tagspace", "disksection": "absent"}, {"ids": "plain", "foreign_attrs": "before"}, {"ids": "punct"}, {"ids": "punct", "xml": "squote"}, {"ids": "words", "foreign_attrs": "after", "xml": "squote"}]
 VBOX_STYLES = [{}, {"attr_order": True}, {"xml": "squote"}, {"xml": "prefix", "attr_order": True}, {"xml": "comments"}, {"xml": "tagspace"}]
 PVS_STYLES = [{}, {"xml": "squote"}, {"xml": "comments"}, {"xml": "tagspace"}]
 
@@ -235,6 +235,29 @@ def respell(text, mode, rng):
     raise core.MachineryError(f"unknown respelling {mode}")
 
 
+_LATER = []
+
+
+def _handed_over(text, rng):
+    """The handle a configuration is parsed from belongs to the caller: once the object exists the caller may close it or reuse its
+    buffer for another document (done right after construction, before anything is asked of the object)."""
+    fh = io.StringIO(text)
+    _LATER.append((fh, rng.choice(["keep", "close", "reuse"])))
+    return fh
+
+
+def _caller_moves_on():
+    while _LATER:
+        fh, what = _LATER.pop()
+        if what == "close":
+            fh.close()
+        elif what == "reuse":
+            fh.seek(0)
+            fh.truncate()
+            fh.write("<?xml version='1.0'?><Other><Hdd><SystemName>other-vm.hdd</SystemName></Hdd></Other>")
+            fh.seek(0)
+
+
 def observe(kind, body, rng, style, history=None):
     """Render, parse with the real class, return (reported, expected-name resolver, text).
 
@@ -250,19 +273,19 @@ def observe(kind, body, rng, style, history=None):
         text, names = render_ovf(body, rng, style)
         if style.get("xml"):
             text = respell(text, style["xml"], rng)
-        obj = OVF(io.StringIO(text))
+        obj = OVF(_handed_over(text, rng))
     elif kind == "vbox":
         from dissect.hypervisor.descriptor.vbox import VBox
         text, names = render_vbox(body, rng, style)
         if style.get("xml"):
             text = respell(text, style["xml"], rng)
-        obj = VBox(io.StringIO(text))
+        obj = VBox(_handed_over(text, rng))
     else:
         from dissect.hypervisor.descriptor.pvs import PVS
         text, names = render_pvs(body, rng, style)
         if style.get("xml"):
             text = respell(text, style["xml"], rng)
-        obj = PVS(io.StringIO(text))
+        obj = PVS(_handed_over(text, rng))
     # another configuration with the same identifiers but other file names is parsed (and listed) in between: objects
     # must not share state
     decoy = None
@@ -277,6 +300,7 @@ def observe(kind, body, rng, style, history=None):
             list(decoy.disks())
     except Exception:  # noqa: BLE001
         pass
+    _caller_moves_on()
     first = list(obj.disks())
     if history is not None:
         it = iter(obj.disks())
